@@ -20,6 +20,11 @@ From CB Require Import Trie.ArenaCow.
 From CB Require Import Trie.ArenaTree.
 From CB Require Import Trie.ArenaView.
 From CB Require Import Trie.ArenaEnt.
+From CB Require Import Trie.ArenaSep.
+From CB Require Import Trie.ArenaInsert.
+From CB Require Import Trie.ArenaHist.
+From CB Require Import Trie.ArenaSet.
+From CB Require Import Trie.ArenaNewGen.
 Import ListNotations.
 Local Open Scope N_scope.
 
@@ -451,6 +456,171 @@ Example arena_view_nonvacuous :
     /\ length (a_nodes (fst (a_lookup_key a [19]))) = (length (a_nodes a) + 2)%nat.
 Proof. exact view_example. Qed.
 Print Assumptions arena_view_nonvacuous.
+
+(** ** Arena (level C): the mutating operation [insert] commutes with the abstraction
+    (gap (b), first part; files Trie/ArenaSep.v, ArenaInsert.v, ArenaHist.v).
+
+    [Tr a idx t fp]: node [idx] of the arena unfolds to the finite radix tree [t] of entry
+    indices, visiting exactly the node indices [fp]; [NoDup fp] is the disjointness of the
+    sub-arenas of distinct children, the existence of [t] is the height bound. *)
+
+(** The relation determines the depth-indexed view of [ArenaView.v] for every depth from the
+    height of the tree on. *)
+Theorem arena_sep_determines_view : forall a t idx fp d,
+  Tr a idx t fp -> (theight t <= d)%nat -> vview d a idx = tmap (a_with_entry a) t.
+Proof. exact Tr_vview. Qed.
+Print Assumptions arena_sep_determines_view.
+
+(** [make_owned] (copying the children of a node into its generation, which renumbers nodes
+    and entries) keeps the separated-tree relation, the values of the view and the
+    separation of the entries, and touches no other existing node. *)
+Theorem arena_make_owned_keeps_separation : forall a idx t fp R,
+  Tr a idx t fp -> NoDup fp -> Forall (fun j => (j < length (a_nodes a))%nat) fp ->
+  ESep a (tentries t ++ R) ->
+  let a1 := make_owned a idx in
+  exists t1 fp1, Tr a1 idx t1 fp1 /\ NoDup fp1
+    /\ Forall (fun j => (j < length (a_nodes a1))%nat) fp1
+    /\ (forall j, In j fp1 -> In j fp \/ (length (a_nodes a) <= j)%nat)
+    /\ tmap (a_with_entry a1) t1 = tmap (a_with_entry a) t
+    /\ ESep a1 (tentries t1 ++ R)
+    /\ (forall x, In x R -> edat a1 x = edat a x /\ a_with_entry a1 x = a_with_entry a x)
+    /\ (forall j, (j < length (a_nodes a))%nat -> j <> idx -> node_at a1 j = node_at a j)
+    /\ (length (a_nodes a) <= length (a_nodes a1))%nat
+    /\ a_gens a1 = a_gens a.
+Proof. exact mo_sep. Qed.
+Print Assumptions arena_make_owned_keeps_separation.
+
+(** [insert] of the arena (all four [follow_stem] cases, the copying walk, parent relinking,
+    [set_entry_value] on an existing key) is [Radix.insert] on the view: for every arena
+    satisfying the separation invariant [Sep], the view of the new root equals
+    [insert_root key (Some v)] of the view before (at every depth from some bound on), the
+    returned entry denotes the inserted value, the "existed" flag is "the key was present",
+    and [Sep] is preserved. *)
+Theorem arena_insert_refines_radix : forall a key v,
+  Sep a ->
+  let '(a', e, existed) := ar_insert a key v in
+  Sep a' /\ a_with_entry a' e = Some v
+  /\ exists r', cur_root a' = Some r'
+  /\ exists D, forall d, (D <= d)%nat ->
+       vview d a' r' = insert_root (nib key) (Some v) (rview d a)
+       /\ existed = is_some (lookup_root (nib key) (rview d a)).
+Proof. exact insert_refines. Qed.
+Print Assumptions arena_insert_refines_radix.
+
+(** The copying lookup under the same invariant: the view is unchanged, the result is
+    [Radix.lookup_root] on it, [Sep] is preserved. *)
+Theorem arena_lookup_refines_radix_sep : forall a key,
+  Sep a ->
+  let '(a', oe) := a_lookup_key a key in
+  Sep a' /\ cur_root a' = cur_root a
+  /\ exists D, forall d, (D <= d)%nat ->
+       rview d a' = rview d a
+       /\ option_map (a_with_entry a') oe = lookup_root (nib key) (rview d a).
+Proof. exact lookup_refines. Qed.
+Print Assumptions arena_lookup_refines_radix_sep.
+
+(** Histories: for EVERY list of insert / lookup operations from the empty arena, the
+    outputs of the arena machine (handle numbers, "existed" flags, values found) are those
+    of the machine that applies [Radix.insert_root] / [Radix.lookup_root] to a radix tree of
+    values, the final view is that machine's final tree, and [Sep] holds at the end. *)
+Theorem arena_insert_lookup_history_refines_radix : forall ops,
+  forallb ins_get_op ops = true ->
+  as_outs ops as_init = r_outs ops r_init
+  /\ Sep (as_arena (as_run ops as_init))
+  /\ exists D, forall d, (D <= d)%nat -> rview d (as_arena (as_run ops as_init)) = fst (r_run ops r_init).
+Proof. exact arena_insert_lookup_history. Qed.
+Print Assumptions arena_insert_lookup_history_refines_radix.
+
+(** Non-vacuity: [Sep] holds initially; a history with a split at an odd nibble, an
+    overwrite of an existing key, a key that is a prefix of another, and lookups. *)
+Example arena_sep_nonvacuous : Sep a_empty.
+Proof. exact Sep_empty. Qed.
+Print Assumptions arena_sep_nonvacuous.
+
+Example arena_insert_lookup_history_nonvacuous :
+  let ops := [OInsert [18; 52] [1]; OInsert [18; 63] [2]; OGet [18; 52];
+              OInsert [18; 52] [3]; OGet [18; 52]; OGet [18]; OInsert [18] [4]; OGet [18]] in
+  forallb ins_get_op ops = true
+  /\ as_outs ops as_init =
+     [RHandle 0 false; RHandle 1 false; RFound 2 (Some [1]); RHandle 3 true; RFound 4 (Some [3]); RNone;
+      RHandle 5 false; RFound 6 (Some [4])].
+Proof. exact insert_lookup_history_example. Qed.
+Print Assumptions arena_insert_lookup_history_nonvacuous.
+
+(** [set] / [get_mut]+overwrite on an entry of the CURRENT tree (PARTIAL: the handles of the
+    arena machine are not tied to the tree): only the value denoted by that entry changes
+    in the view, the tree of entry indices and [Sep] are kept, [get_mut] returns the old
+    value, and a deleted entry is refused without any change. *)
+Theorem arena_set_refines_radix_partial : forall a e v r t fp,
+  Sep a -> cur_root a = Some r -> Tr a r t fp -> In e (tentries t) ->
+  let a' := fst (a_set a e v) in
+  let alive := snd (a_set a e v) in
+  Sep a' /\ cur_root a' = Some r /\ Tr a' r t fp
+  /\ alive = is_some (a_with_entry a e)
+  /\ tmap (a_with_entry a') t = tmap (fun x => if Nat.eqb x e && alive then Some v else a_with_entry a x) t
+  /\ fst (a_mut a e v) = a' /\ snd (a_mut a e v) = a_with_entry a e.
+Proof. exact set_refines_partial. Qed.
+Print Assumptions arena_set_refines_radix_partial.
+
+Example arena_set_nonvacuous :
+  let a := fst (fst (ar_insert (fst (fst (ar_insert a_empty [18] [1]))) [19] [2])) in
+  exists r, cur_root a = Some r
+    /\ abs_t 3 a r = Node [1] None (FCons 2 (Node [] (Some 0%nat) FNil) (FCons 3 (Node [] (Some 1%nat) FNil) FNil))
+    /\ a_set a 1 [7] = (fst (a_set a 1 [7]), true)
+    /\ vview 3 (fst (a_set a 1 [7])) r
+       = Node [1] None (FCons 2 (Node [] (Some (Some [1])) FNil) (FCons 3 (Node [] (Some (Some [7])) FNil) FNil)).
+Proof. exact set_example. Qed.
+Print Assumptions arena_set_nonvacuous.
+
+(** [new_generation] (the root is migrated into the new generation: a copy with a fresh
+    read-only entry that shares the children vector; a checkpoint is pushed) keeps the view of
+    the current root and the invariant [Sep]. *)
+Theorem arena_new_generation_keeps_view : forall a,
+  Sep a ->
+  let a' := a_new_generation a in
+  Sep a' /\ length (a_gens a') = S (length (a_gens a))
+  /\ exists D, forall d, (D <= d)%nat -> rview d a' = rview d a.
+Proof. exact new_generation_refines. Qed.
+Print Assumptions arena_new_generation_keeps_view.
+
+(** Histories with checkpoints (no rollback): for EVERY list of insert / lookup /
+    new_generation operations from the empty arena the outputs of the arena machine equal
+    those of the value-level machine [r2_step] (a checkpoint keeps the tree, restarts the
+    handle numbering and reports the number of generations), the final view is that
+    machine's tree and [Sep] holds.  (Lookups and inserts after a checkpoint walk through
+    shared children vectors, i.e. this covers the copy-on-write path of [make_owned].) *)
+Theorem arena_insert_lookup_newgen_history_refines_radix : forall ops,
+  forallb ins_get_new_op ops = true ->
+  as_outs ops as_init = r2_outs ops r2_init
+  /\ Sep (as_arena (as_run ops as_init))
+  /\ exists D, forall d, (D <= d)%nat ->
+       rview d (as_arena (as_run ops as_init)) = fst (fst (r2_run ops r2_init)).
+Proof. exact arena_insert_lookup_newgen_history. Qed.
+Print Assumptions arena_insert_lookup_newgen_history_refines_radix.
+
+(** [normalize]: rolling back to a checkpoint restores the view of the older generation at every
+    depth (and [Sep], if it held), whatever was done in the newer generations - corollary of
+    [arena_rollback_restores] (the arena is given back literally); for every reachable state.
+    Non-vacuity of the hypothesis: [arena_rollback_nonvacuous] above. *)
+Theorem arena_rollback_restores_view : forall pre ops d,
+  let s := as_run pre as_init in
+  Forall (keeps (length (a_gens (as_arena s)))) ops ->
+  let s' := as_run (ONewGen :: ops ++ [ONormalize (length (a_gens (as_arena s)) - 1)]) s in
+  rview d (as_arena s') = rview d (as_arena s)
+  /\ (forall j, vview d (as_arena s') j = vview d (as_arena s) j)
+  /\ (Sep (as_arena s) -> Sep (as_arena s')).
+Proof. exact rollback_restores_view. Qed.
+Print Assumptions arena_rollback_restores_view.
+
+Example arena_newgen_history_nonvacuous :
+  let ops := [OInsert [18; 52] [1]; OInsert [18; 63] [2]; ONewGen; OGet [18; 63];
+              OInsert [18; 52] [3]; ONewGen; OInsert [18] [4]; OGet [18; 52]] in
+  forallb ins_get_new_op ops = true
+  /\ as_outs ops as_init =
+     [RHandle 0 false; RHandle 1 false; RGens 2; RFound 0 (Some [2]); RHandle 1 true; RGens 3;
+      RHandle 0 false; RFound 1 (Some [3])].
+Proof. exact newgen_history_example. Qed.
+Print Assumptions arena_newgen_history_nonvacuous.
 
 (** ** Non-vacuity: concrete histories exercising the interesting shapes *)
 
